@@ -420,6 +420,27 @@ outer:
 	return maxElapsed, nil
 }
 
+// segmentFMP4PartIsComplete checks whether a moof box and the mdat box that follows
+// are entirely present in the file. A segment can end with an incomplete part
+// when the server is stopped abruptly while writing it.
+func segmentFMP4PartIsComplete(r io.ReaderAt, moof *amp4.BoxInfo, fileSize uint64) bool {
+	mdatPos := moof.Offset + moof.Size
+
+	buf := make([]byte, 8)
+	_, err := r.ReadAt(buf, int64(mdatPos))
+	if err != nil {
+		return false
+	}
+
+	if !bytes.Equal(buf[4:], []byte{'m', 'd', 'a', 't'}) {
+		return false
+	}
+
+	mdatSize := uint64(buf[0])<<24 | uint64(buf[1])<<16 | uint64(buf[2])<<8 | uint64(buf[3])
+
+	return mdatSize >= 8 && (mdatPos+mdatSize) <= fileSize
+}
+
 func segmentFMP4MuxParts(
 	r readSeekerAt,
 	startDTS time.Duration,
@@ -436,9 +457,24 @@ func segmentFMP4MuxParts(
 	var segmentDuration time.Duration
 	breakAtNextMdat := false
 
-	_, err := amp4.ReadBoxStructure(r, func(h *amp4.ReadHandle) (any, error) {
+	fileSize, err := r.Seek(0, io.SeekEnd)
+	if err != nil {
+		return 0, err
+	}
+
+	_, err = r.Seek(0, io.SeekStart)
+	if err != nil {
+		return 0, err
+	}
+
+	_, err = amp4.ReadBoxStructure(r, func(h *amp4.ReadHandle) (any, error) {
 		switch h.BoxInfo.Type.String() {
 		case "moof":
+			// stop at the first incomplete part
+			if !segmentFMP4PartIsComplete(r, &h.BoxInfo, uint64(fileSize)) {
+				return nil, errTerminated
+			}
+
 			moofOffset = h.BoxInfo.Offset
 			return h.Expand()
 
@@ -539,7 +575,8 @@ func segmentFMP4MuxParts(
 		}
 		return nil, nil
 	})
-	if err != nil && !errors.Is(err, errTerminated) {
+	// an incomplete box header at the end of the file is an incomplete part too
+	if err != nil && !errors.Is(err, errTerminated) && !errors.Is(err, io.ErrUnexpectedEOF) {
 		return 0, err
 	}
 
